@@ -64,8 +64,13 @@ Qed.
 
 (* ---- no operation loses a package's own definitions: for every history of S, an own cell of any
    package disappears only by makunbound/fmakunbound of that very name in that very package ---- *)
+(* (defun n) of a NEW function in p whose name is an exported, unbound symbol of p (interned by an earlier
+   export): the function takes the place of the symbol; a bound variable is never affected (own_v_bound_never_lost) *)
 Definition removes_v (s : sstate) (o : op) (p : pkgid) (n : name) : Prop :=
-  match o with OMakunbound n' => p = s_cur s /\ n = n' | _ => False end.
+  match o with
+  | OMakunbound n' => p = s_cur s /\ n = n'
+  | ODefun n' _ => p = s_cur s /\ n = n' /\ resolve_f s (s_cur s) n = None /\ exported_symbol s (s_cur s) n <> None
+  | _ => False end.
 Definition removes_f (s : sstate) (o : op) (p : pkgid) (n : name) : Prop :=
   match o with OFmakunbound n' => p = s_cur s /\ n = n' | _ => False end.
 
@@ -101,6 +106,15 @@ Proof.
   - apply new_var_keeps; [|exact Ho]. unfold resolve_v in E. destruct (own_v s (s_cur s) n); [discriminate|reflexivity].
 Qed.
 
+Lemma sexport_f_own_v s p n : own_v (sexport_f s p n) = own_v s.
+Proof. unfold sexport_f. destruct (own_f s p n); [apply own_v_set_fexp|reflexivity]. Qed.
+Lemma sunexport_f_own_v s p n : own_v (sunexport_f s p n) = own_v s.
+Proof. unfold sunexport_f. destruct (own_f s p n); [apply own_v_set_fexp|reflexivity]. Qed.
+Lemma sexport_f_own_f s p n : own_f (sexport_f s p n) = own_f s.
+Proof. unfold sexport_f. destruct (own_f s p n); [apply own_f_set_fexp|reflexivity]. Qed.
+Lemma sunexport_f_own_f s p n : own_f (sunexport_f s p n) = own_f s.
+Proof. unfold sunexport_f. destruct (own_f s p n); [apply own_f_set_fexp|reflexivity]. Qed.
+
 Theorem own_v_never_lost s o p n a :
   own_v s p n = Some a -> ~ removes_v s o p n -> own_v (sstep s o) p n = Some a.
 Proof.
@@ -108,20 +122,29 @@ Proof.
   - exact Ho.
   - destruct (_ || _); exact Ho.
   - destruct (N.eqb p0 q); exact Ho.
-  - set (s1 := match own_f s p0 n0 with Some a0 => set_fexp s a0 true | None => s end).
-    assert (H1 : own_v s1 = own_v s) by (unfold s1; destruct (own_f s p0 n0); [apply own_v_set_fexp|reflexivity]).
-    destruct (own_v s1 p0 n0) as [b|] eqn:E.
-    + rewrite own_v_set_vexp, H1. exact Ho.
-    + apply new_var_keeps; [exact E|]. rewrite H1. exact Ho.
-  - set (s1 := match own_f s p0 n0 with Some a0 => set_fexp s a0 false | None => s end).
-    assert (H1 : own_v s1 = own_v s) by (unfold s1; destruct (own_f s p0 n0); [apply own_v_set_fexp|reflexivity]).
-    destruct (own_v s1 p0 n0) as [b|]; [rewrite own_v_set_vexp|]; rewrite H1; exact Ho.
+  - unfold sexport_v. rewrite sexport_f_own_v. destruct (own_v s p0 n0) as [b|] eqn:E.
+    + rewrite own_v_set_vexp, sexport_f_own_v. exact Ho.
+    + apply new_var_keeps; rewrite sexport_f_own_v; assumption.
+  - unfold sunexport_v. rewrite sunexport_f_own_v.
+    destruct (own_v s p0 n0) as [b|]; [rewrite own_v_set_vexp|]; rewrite sunexport_f_own_v; exact Ho.
   - apply s_setq_keeps_v, Ho.
   - destruct (resolve_v s (s_cur s) n0) as [b|]; [|apply s_setq_keeps_v, Ho].
     destruct (s_vheap s b) as [vv|]; [|exact Ho]. destruct (vv_val vv); [exact Ho|apply s_setq_keeps_v, Ho].
-  - destruct (resolve_f s (s_cur s) n0) as [b|]; [destruct (s_fheap s b)|]; exact Ho.
+  - destruct (resolve_f s (s_cur s) n0) as [b|] eqn:Er; [destruct (s_fheap s b); exact Ho|].
+    cbn. destruct (exported_symbol s (s_cur s) n0) as [x|] eqn:Ex; [|exact Ho].
+    rewrite upd2_other; [exact Ho|]. intros [-> ->]. apply Hr. cbn. repeat split; auto. congruence.
   - cbn. rewrite upd2_other; [exact Ho|]. intros [-> ->]. apply Hr. cbn. auto.
   - exact Ho.
+Qed.
+
+(* a variable that has a value is only lost by makunbound of that name in that package *)
+Theorem own_v_bound_never_lost s o p n a vv :
+  own_v s p n = Some a -> s_vheap s a = Some vv -> vv_val vv <> None ->
+  ~ (match o with OMakunbound n' => p = s_cur s /\ n = n' | _ => False end) ->
+  own_v (sstep s o) p n = Some a.
+Proof.
+  intros Ho Hh Hv Hr. apply own_v_never_lost; [exact Ho|]. destruct o; cbn; try exact Hr; try tauto.
+  intros (-> & -> & _ & Hx). apply Hx. unfold exported_symbol. rewrite Ho, Hh. destruct (vv_val vv); [reflexivity|congruence].
 Qed.
 
 Theorem own_f_never_lost s o p n a :
@@ -131,12 +154,8 @@ Proof.
   - exact Ho.
   - destruct (_ || _); exact Ho.
   - destruct (N.eqb p0 q); exact Ho.
-  - set (s1 := match own_f s p0 n0 with Some a0 => set_fexp s a0 true | None => s end).
-    assert (H1 : own_f s1 = own_f s) by (unfold s1; destruct (own_f s p0 n0); [apply own_f_set_fexp|reflexivity]).
-    destruct (own_v s1 p0 n0) as [b|]; [rewrite own_f_set_vexp|cbn]; rewrite H1; exact Ho.
-  - set (s1 := match own_f s p0 n0 with Some a0 => set_fexp s a0 false | None => s end).
-    assert (H1 : own_f s1 = own_f s) by (unfold s1; destruct (own_f s p0 n0); [apply own_f_set_fexp|reflexivity]).
-    destruct (own_v s1 p0 n0) as [b|]; [rewrite own_f_set_vexp|]; rewrite H1; exact Ho.
+  - unfold sexport_v. destruct (own_v (sexport_f s p0 n0) p0 n0) as [b|]; [rewrite own_f_set_vexp|cbn]; rewrite sexport_f_own_f; exact Ho.
+  - unfold sunexport_v. destruct (own_v (sunexport_f s p0 n0) p0 n0) as [b|]; [rewrite own_f_set_vexp|]; rewrite sunexport_f_own_f; exact Ho.
   - unfold s_setq. destruct (resolve_v s (s_cur s) n0); [rewrite own_f_set_vval|cbn]; exact Ho.
   - assert (Hq : own_f (s_setq s n0 v) p n = Some a)
       by (unfold s_setq; destruct (resolve_v s (s_cur s) n0); [rewrite own_f_set_vval|cbn]; exact Ho).
@@ -161,44 +180,59 @@ Proof.
   apply IH; [apply own_v_never_lost; assumption|exact H2].
 Qed.
 
-(* ---- refutations: outside the guard the faithful model M differs from S (known findings) ---- *)
+(* ---- refutations: outside the guard the model M of the repaired code still differs from S (the two
+   remaining known findings) ---- *)
 Open Scope Z_scope.
 Definition differs (ops : list op) : bool :=
   negb (list_eqb (list_eqb qres_eqb) (run PK VN FN (init 0%N) ops) (srun PK VN FN (sinit 0%N) ops)).
-Definition w_unuse := [OSetq 0%N 1; OUse 1%N 0%N; OUnuse 1%N 0%N].
-Definition w_private_pushed := [OUse 0%N 1%N; OSetq 0%N 1; OSetq 0%N 2].
-Definition w_use_overwrites := [OSetq 0%N 1; OInPkg 1%N; OSetq 0%N 2; OExport 0%N 1%N; OUse 1%N 0%N].
-Definition w_fmakunbound_stale := [ODefun 2%N 1; OExport 2%N 0%N; OUse 0%N 1%N; OFmakunbound 2%N].
-Definition w_export_before_defun := [OUse 0%N 1%N; OExport 2%N 0%N; ODefun 2%N 1].
-Definition w_defun_inherited := [ODefun 2%N 1; OExport 2%N 0%N; OUse 0%N 1%N; OInPkg 1%N; ODefun 2%N 2; OUnexport 2%N 0%N].
-Definition w_marker := [OExport 0%N 0%N].
-Definition w_makunbound_inherited := [OSetq 0%N 1; OExport 0%N 0%N; OUse 0%N 1%N; OInPkg 1%N; OMakunbound 0%N].
+(* b uses a, a uses c, c exports x => x visible in b (Use copies what a merely inherits) *)
 Definition w_use_transitive := [OInPkg 2%N; OSetq 0%N 1; OExport 0%N 2%N; OUse 2%N 0%N; OUse 0%N 1%N].
-(* found while proving the refinement (the guard evaluated per run had let them through) *)
-Definition w_defun_inherits_export :=
-  [ODefun 3%N 1; OExport 3%N 0%N; OFmakunbound 3%N; OUse 0%N 1%N; OInPkg 1%N; ODefun 3%N 2].
-Definition w_unexport_inherited := [OSetq 0%N 1; OExport 0%N 0%N; OUse 0%N 1%N; OUnexport 0%N 1%N].
-Definition witnesses := [w_unuse; w_private_pushed; w_use_overwrites; w_fmakunbound_stale; w_export_before_defun;
-                         w_defun_inherited; w_marker; w_makunbound_inherited; w_use_transitive;
-                         w_defun_inherits_export; w_unexport_inherited].
+(* the same through Unuse: b uses c and a, a uses c; b stops using c but keeps x through a's table *)
+Definition w_unuse_transitive := [OInPkg 2%N; OSetq 0%N 1; OExport 0%N 2%N; OUse 2%N 0%N; OUse 2%N 1%N; OUse 0%N 1%N; OUnuse 2%N 1%N].
+(* c uses a and b, both export x; a unexports x: c does not fall back on b's x *)
+Definition w_no_fallback :=
+  [OSetq 0%N 1; OExport 0%N 0%N; OInPkg 1%N; OSetq 0%N 2; OExport 0%N 1%N; OUse 0%N 2%N; OUse 1%N 2%N; OUnexport 0%N 0%N].
+(* c uses a and b (in this order), b exports x, then a exports x: c keeps b's x although a comes first *)
+Definition w_no_precedence :=
+  [OSetq 0%N 1; OInPkg 1%N; OSetq 0%N 2; OExport 0%N 1%N; OUse 0%N 2%N; OUse 1%N 2%N; OExport 0%N 0%N].
+(* c owns x and uses a which exports x; makunbound x in c does not uncover a's x *)
+Definition w_no_uncover :=
+  [OSetq 0%N 1; OExport 0%N 0%N; OInPkg 2%N; OSetq 0%N 3; OUse 0%N 2%N; OMakunbound 0%N].
+Definition witnesses := [w_use_transitive; w_unuse_transitive; w_no_fallback; w_no_precedence; w_no_uncover].
 Lemma outside_guard_refuted :
   forallb differs witnesses = true /\ forallb (fun w => negb (guard_run PK NM (sinit 0%N) w)) witnesses = true.
 Proof. split; vm_compute; reflexivity. Qed.
 
-(* the name discipline is necessary: a guarded history that uses one name both as a function and as a
-   variable, on which M differs from S (export of a function name interns an exported unbound variable
-   whose p:name is the unbound marker) *)
-Definition w_unsorted := [ODefun 0%N 1; OExport 0%N 0%N].
-Lemma unsorted_refuted :
-  guard_run PK NM (sinit 0%N) w_unsorted = true /\ differs w_unsorted = true /\
-  forallb (sorted_op VN FN) w_unsorted = false.
-Proof. repeat split; vm_compute; reflexivity. Qed.
+(* the histories of the eleven repaired findings are now INSIDE the guard and M = S on them (they were the
+   refutation witnesses of the unrepaired code) *)
+Definition r_unuse := [OSetq 0%N 1; OUse 1%N 0%N; OUnuse 1%N 0%N].
+Definition r_private_pushed := [OUse 0%N 1%N; OSetq 0%N 1; OSetq 0%N 2].
+Definition r_use_overwrites := [OSetq 0%N 1; OInPkg 1%N; OSetq 0%N 2; OExport 0%N 1%N; OUse 1%N 0%N].
+Definition r_fmakunbound_stale := [ODefun 2%N 1; OExport 2%N 0%N; OUse 0%N 1%N; OFmakunbound 2%N].
+Definition r_export_before_defun := [OUse 0%N 1%N; OExport 2%N 0%N; ODefun 2%N 1].
+Definition r_defun_inherited := [ODefun 2%N 1; OExport 2%N 0%N; OUse 0%N 1%N; OInPkg 1%N; ODefun 2%N 2; OUnexport 2%N 0%N].
+Definition r_marker := [OExport 0%N 0%N].
+Definition r_makunbound_inherited := [OSetq 0%N 1; OExport 0%N 0%N; OUse 0%N 1%N; OInPkg 1%N; OMakunbound 0%N].
+Definition r_defun_inherits_export :=
+  [ODefun 3%N 1; OExport 3%N 0%N; OFmakunbound 3%N; OUse 0%N 1%N; OInPkg 1%N; ODefun 3%N 2].
+Definition r_unexport_inherited := [OSetq 0%N 1; OExport 0%N 0%N; OUse 0%N 1%N; OUnexport 0%N 1%N].
+Definition r_fmakunbound_inherited := [ODefun 2%N 1; OExport 2%N 0%N; OUse 0%N 1%N; OInPkg 1%N; OFmakunbound 2%N].
+Definition r_symbol_shared := [OUse 0%N 1%N; OExport 0%N 0%N; OInPkg 1%N; OSetq 0%N 5; OInPkg 0%N; OSetq 0%N 1; OUnexport 0%N 0%N].
+(* one name used as function AND variable (the name discipline of earlier versions is not needed any more) *)
+Definition r_unsorted := [ODefun 0%N 1; OExport 0%N 0%N; OSetq 0%N 3; OUse 0%N 1%N; OFmakunbound 0%N; ODefun 0%N 4; OMakunbound 0%N].
+Definition repaired := [r_unuse; r_private_pushed; r_use_overwrites; r_fmakunbound_stale; r_export_before_defun;
+                        r_defun_inherited; r_marker; r_makunbound_inherited; r_defun_inherits_export;
+                        r_unexport_inherited; r_fmakunbound_inherited; r_symbol_shared; r_unsorted].
+Lemma repaired_inside_guard :
+  forallb (fun w => guard_run PK NM (sinit 0%N) w && negb (differs w)) repaired = true.
+Proof. vm_compute. reflexivity. Qed.
 
-(* non-vacuity: a guarded history using every guarded operation, on which M = S *)
+(* non-vacuity: a guarded history using every operation, on which M = S *)
 Definition ex_guarded : list op :=
   [OSetq 0%N 1; ODefun 2%N 2; OExport 0%N 0%N; OExport 2%N 0%N; OUse 0%N 1%N; OInPkg 1%N; OSetq 0%N 3; OSetq 1%N 4;
-   ODefun 3%N 5; ODefvar 1%N 6; OInPkg 0%N; OUnexport 0%N 0%N; OMakunbound 0%N; OInPkg 1%N; OMakunbound 1%N; OFmakunbound 3%N].
+   ODefun 3%N 5; ODefvar 1%N 6; OInPkg 0%N; OUnexport 0%N 0%N; OMakunbound 0%N; OInPkg 1%N; OMakunbound 1%N; OFmakunbound 3%N;
+   OUnuse 0%N 1%N; OExport 3%N 1%N; ODefun 3%N 7].
 Lemma guarded_example :
-  guard_run PK NM (sinit 0%N) ex_guarded = true /\ forallb (sorted_op VN FN) ex_guarded = true /\
-  differs ex_guarded = false /\ List.length ex_guarded = 16%nat.
+  guard_run PK NM (sinit 0%N) ex_guarded = true /\
+  differs ex_guarded = false /\ List.length ex_guarded = 19%nat.
 Proof. repeat split; vm_compute; reflexivity. Qed.
